@@ -64,3 +64,18 @@ def name_term(ctx, f, st, name):
 
 def fmt(t):
     return tstr(t)
+
+
+def local_raise(p):
+    """The Raise statement of this frame that produced the path's exception, or None when the
+    exception came out of a callee / primitive."""
+    if p.exit[0] != "raise":
+        return None
+    for ev in reversed(p.events):
+        if ev.k == "raise" and ev.a == p.exit[1]:
+            return ev.node
+        if ev.k in ("call", "src") and ev.a == p.exit[1]:
+            return None
+        if ev.k == "yield" and ev.a == "throw":
+            return None
+    return None
